@@ -211,7 +211,7 @@ func pipeRunCompare(prop string, f *Fixture, cfg *sut.Config, spec *PipeSpec, qu
 		exps[i] = expectedFor(&spec.Clients[i], pi, rc)
 		want[i] = len(exps[i])
 	}
-	res := runPipesQuiet(f, spec, want, 8*time.Second, quiet, exps)
+	res := runPipesQuiet(f, spec, want, time.Duration(envInt("VERIF_DEADLINE_S", 8))*time.Second, quiet, exps)
 	f.LastLog = res.Log
 	if os.Getenv("VERIF_DUMP_LOG") != "" {
 		for _, lr := range res.Log {
